@@ -271,10 +271,11 @@ package datatypes
 //@   loop 0 invariant[self] its.txCtx == old(its.txCtx) && its.isLocked == old(its.isLocked) && its.mutex == old(its.mutex) && its.BaseDatatype == old(its.BaseDatatype) && baseWF(its.BaseDatatype)
 //@   loop 0 invariant[ops] opsIDed(its.rollbackOps) && sameSlice(its.rollbackOps, old(its.rollbackOps))
 //@   ensures[replay-list-emptied] result == nil ==> len(its.rollbackOps) == 0
+//@   ensures[commit-point-is-the-restored-state] result == nil ==> G.exportedAt == G.stateVer
 //@   ensures[tx-kept] its.txCtx == old(its.txCtx) && its.isLocked == old(its.isLocked) && its.mutex == old(its.mutex)
 //@   ensures[base-wf] baseWF(its.BaseDatatype)
 //@   assumes[rollback-succeeds] rollbackSound() ==> result == nil
-//@   modifies @iface.Datatype.SetMetaAndSnapshot, @(*BaseDatatype).Replay, TransactionDatatype.rollbackMeta, TransactionDatatype.rollbackSnapshot, TransactionDatatype.rollbackOps, G:lastMarshaled
+//@   modifies @iface.Datatype.SetMetaAndSnapshot, @(*BaseDatatype).Replay, @iface.Datatype.GetMetaAndSnapshot, TransactionDatatype.rollbackMeta, TransactionDatatype.rollbackSnapshot, TransactionDatatype.rollbackOps, G:lastMarshaled
 
 // EndTransaction: the owner of the running transaction commits or rolls back, and unlocks.
 // A committed unit announces its own length, is recorded for later rollbacks whether it came
@@ -325,6 +326,7 @@ package datatypes
 //@   ensures[refused-gives-the-id-back] old(idRoom(its.BaseDatatype)) && isLocal && result1 != nil ==> its.opID.Seq == old(its.opID.Seq) && its.opID.Lamport == old(its.opID.Lamport)
 //@   ensures[accepted-consumes-one-id] old(idRoom(its.BaseDatatype)) && isLocal && result1 == nil ==> its.opID.Seq == old(its.opID.Seq) + 1
 //@   ensures[wf] txWF(its)
+//@   assumes[list-delete-returns-the-deleted-values] isLocal && result1 == nil && op.(*operations.DeleteOperation) && result0 != nil ==> result0.([]types.JSONValue) && (forall v in result0.(as []types.JSONValue) :: v != nil)
 //@   modifies @(*TransactionDatatype).BeginTransaction, @(*TransactionDatatype).EndTransaction, @(*BaseDatatype).executeLocalBase, TransactionContext.opBuffer, G:sentences
 
 // ghost: number of operations executed through SentenceInTx for remote units
@@ -357,3 +359,15 @@ package datatypes
 //@   ensures[miscounted-unit-applies-nothing] len(transaction) > 1 && (old(transaction[0].OpType) != model.TypeOfOperation_TRANSACTION || operations.announced(old(transaction[0])) != len(transaction)) ==> result1 != nil && G.sentences == old(G.sentences)
 //@   ensures[always-unlocked] !its.isLocked
 //@   modifies *
+
+// callHandlers (run once per applied reply) tells the user: a state transition exactly once iff the state
+// changed, the errors iff there are any, the remote operations iff there are any — each independently of
+// the others (an error in the same reply must not swallow the transition to SUBSCRIBED).
+//@ func (*WiredDatatype).callHandlers
+//@   mode math
+//@   props C13 C16
+//@   requires wiredWF(its) && its.TransactionDatatype.BaseDatatype.Datatype != nil && errs != nil && errs.(*errors.MultipleOrdaErrors)
+//@   ensures[transition-reported-once-iff-changed] G.toldStateChange == old(G.toldStateChange) + (oldState != newState ? 1 : 0)
+//@   ensures[errors-reported-iff-any]              G.toldErrors == old(G.toldErrors) + (len(errs.(as *errors.MultipleOrdaErrors).errs) > 0 ? 1 : 0)
+//@   ensures[remote-ops-reported-iff-any]          G.toldRemoteOps == old(G.toldRemoteOps) + (len(opList) > 0 ? 1 : 0)
+//@   modifies G:toldStateChange, G:toldErrors, G:toldRemoteOps, alloc
